@@ -29,7 +29,7 @@ def pinned_probes(prop):
 
 
 def choose_items(prop, tier, seed, n, select=None, mode_fraction=0.0, delay=False, only_strict_modes=False,
-                 oversample=4, prior_fraction=0.0):
+                 oversample=4, prior_fraction=0.0, mode_cap=2000):
     """-> list of work items (universe indices, or dicts for thread/process variants)"""
     rng = random.Random(f"{universe.UNIVERSE_VERSION}/items/{prop}/{tier}/{seed}")
     idx = universe.sample_indices(seed, min(universe.UNIVERSE_SIZE, n * (oversample if select else 1)), tag=prop + tier)
@@ -41,8 +41,12 @@ def choose_items(prop, tier, seed, n, select=None, mode_fraction=0.0, delay=Fals
             continue
         items.append(i)
     out = []
+    n_mode = 0
     for i in items:
-        if mode_fraction and rng.random() < mode_fraction:
+        # thread/process variants are not reproducible, hence not covered by the universe audit: their number is capped
+        # so that the exposure to input-dependent numerics of individual algorithms never seen before stays small
+        if mode_fraction and n_mode < mode_cap and rng.random() < mode_fraction:
+            n_mode += 1
             c = universe.case(i)
             if only_strict_modes and not tasks.is_strict_class(c["spec"]):
                 out.append(i)
